@@ -61,7 +61,7 @@ CLAIMED["C12"] = dict(
          "UnrestrictedAtomic<[u64;W]> (copy-style and loan-style stores) and a differential run of the layout functions. PORT LEVEL (Iox2/Props/C12Ports.lean, 38 theorems over all API histories of "
          "an L1 model of Writer / Reader / EntryHandleMut / EntryValueUninit / EntryHandle): at most one writer port; per key at most one write handle including outstanding loans; a second request "
          "is refused with the documented error and changes nothing; every value a reader obtains is the latest completed update of its key and reads are monotone per handle; wrong key/type refused; "
-         "reader limit. One natural statement is false and proved false (a dropped Writer keeps the writer slot while one of its handles lives); tied to /repo by a differential run of the real ports.",
+         "reader limit. One natural statement is false and proved false (a dropped Writer keeps the writer slot while one of its handles lives); tied to /repo by a differential run of the real ports through the generic API and through the custom-key API of the language bindings.",
     note="Trusted: Lean kernel + 3 standard axioms; hand-written L2 model (tie = trace comparison; word-level preemption is not observable in traces, only in the theorem); sequential "
          "consistency; port level: hand-written L1 model (tie = differential run, exhaustive 3/4-call suffixes + random, local + ipc; API calls atomic; one node).",
     technique="Lean 4 proof (seqlock invariant over an interleaving semantics with word-granular copies) + atomic-step trace correspondence + differential layout check",
@@ -96,7 +96,8 @@ CLAIMED["C05"] = dict(
          "statement is FALSE: a machine-checked reachable deadlock (listener asleep, NOTIFIED state, empty trigger, undelivered id) that replays on the real code (known finding); "
          "the partial theorems state exactly which step loses the signal. Tied to /repo by atomic-step traces including blocking waits. Above the hand-shake, an L1 model of the "
          "Notifier / Listener PORTS (registries, connections refreshed inside notify, lifecycle events, node death and cleanup) for EVERY reachable history: a notify reaches exactly the "
-         "attached listeners, an id stays pending until the listener's next wait whatever happens in between, waits report only what was sent, each id once.",
+         "attached listeners, an id stays pending until the listener's next wait whatever happens in between, waits report only what was sent, each id once; a single-listener "
+         "notification reaches exactly the keyed listener, a stale key (listener gone, slot possibly re-used) is refused and delivers nothing.",
     note="Trusted: Lean kernel + 3 standard axioms; hand-written L2 model (tie = trace comparison under a serialising scheduler, SC interleavings; all hand-shake operations are SeqCst "
          "in the source); the trigger back-ends are represented by a counter (trace trigger composed with the real EventImpl); time-outs are not modelled. The port-level L1 model is tied by a "
          "differential run of the real ports (local and ipc, 1..4 nodes), where every call is one atomic step.",
